@@ -334,7 +334,31 @@ SITES = {
     ('C18', TS, 'create_final_dataframe'): [
         S('normalise', "'MI' in heuristic", {'heuristic': ('h', STR)}),
     ],
+    # ---- derived synthetic structure (C20)
+    ('C20', CC, 'CategoricalClassification.generate_duplicates'): [
+        S('dupStart', 'len(X[0])', {'len(X[0])': 'w'}, nth=0),
+        S('dupEnd', 'len(X[0]) + len(feature_indices)', {'len(X[0])': 'w', 'len(feature_indices)': 'k'}),
+    ],
+    ('C20', CC, 'CategoricalClassification.generate_correlated'): [
+        S('corrEnd', 'len(X[0]) + len(feature_indices)', {'len(X[0])': 'w', 'len(feature_indices)': 'k'}),
+    ],
+    ('C20', CC, 'CategoricalClassification.generate_noise'): [
+        S('nFlip', 'int(n * p)', {'n': 'n', 'p': ('p', RAT)}, nth=0),
+        S('nMissing', 'int(n * p)', {'n': 'n', 'p': ('p', RAT)}, nth=1),
+    ],
     # ---- generators (C19)
+    ('C19', CC, 'CategoricalClassification.generate_data'): [
+        S('gapBeforeSingle', 'ix < feature_ix', {'ix': 'ix', 'feature_ix': 'j'}, nth=0),
+        S('gapBeforeListed', 'ix < feature_ix', {'ix': 'ix', 'feature_ix': 'j'}, nth=1),
+        S('tailNeeded', 'ix < n_features', {'ix': 'ix', 'n_features': 'nF'}),
+    ],
+    ('C19', NAIVE, 'generate_random_matrix'): [
+        S('needleColumn', '30'),
+        S('lowLabel', 'target < 40', {'target': 'v'}),
+        S('highLabel', 'target > 39', {'target': 'v'}),
+        S('drawLow', '10'),
+        S('drawHigh', '100', nth=0),
+    ],
     ('C19', CC, 'CategoricalClassification._generate_feature'): [
         S('enforceRep', 'ensure_rep and len(vec) <= size', {'ensure_rep': ('rep', 'Bool'), 'len(vec)': 'd', 'size': 'n'}),
         S('drawn', 'size - len(vec)', {'size': 'n', 'len(vec)': 'd'}),
